@@ -548,6 +548,7 @@ class Flow:
         if isinstance(e, ast.Call):
             args = tuple(c(a) for a in e.args)
             kwargs = tuple(sorted(((k.arg or "**"), c(k.value)) for k in e.keywords))
+            args, kwargs = self._normalise_call(e, args, kwargs)
             return ("call", self._site(e), c(e.func), args, kwargs)
         if isinstance(e, ast.Starred):
             return ("star", c(e.value))
@@ -603,6 +604,29 @@ class Flow:
             # value of an augmented assignment: target op value
             return ("binop", OPS[type(e.op)], c(_as_load(e.target)), c(e.value))
         return ("opaque", type(e).__name__, self._site(e))
+
+    def _normalise_call(self, e, args, kwargs):
+        """For calls of repository functions: keyword arguments that continue the positional
+        sequence of the callee's signature are moved into their positional slots, so that
+        f(a, b) and f(x=a, y=b) have the same canonical form."""
+        if not kwargs or any(a[0] == "star" for a in args) or any(k == "**" for k, _ in kwargs):
+            return args, kwargs
+        try:
+            t = self.repo.resolve_call(self.fi, e)
+        except Exception:
+            return args, kwargs
+        if t.kind not in ("repo", "class") or t.fi is None:
+            return args, kwargs
+        params = list(t.fi.positional_params)
+        if t.fi.cls and not t.fi.is_staticmethod:
+            params = params[1:]
+        if t.fi.node.args.vararg is not None:
+            return args, kwargs
+        kw = dict(kwargs)
+        args = list(args)
+        while len(args) < len(params) and params[len(args)] in kw and params[len(args)] not in t.bound:
+            args.append(kw.pop(params[len(args)]))
+        return tuple(args), tuple(sorted(kw.items()))
 
     def _bind_target(self, target, term, env):
         if isinstance(target, ast.Name):
